@@ -355,9 +355,14 @@ fn gen_lang(a: &HashMap<String, String>) {
                        "ok": o.ok, "out": o.out, "ast": o.ast, "runs": o.runs, "vruns": []})
             }
         } else if value_mode {
+            // the invocation log of the harness functions is part of the observation (C03)
+            mk::RECORD.with(|r| *r.borrow_mut() = true);
             let o = observe_value(&w, si + 1, max, &src, &by_scheme[si], &uses);
+            mk::RECORD.with(|r| *r.borrow_mut() = false);
             *stats.entry(format!("value.{}", o.out)).or_default() += 1;
-            json!({"ev": "value", "id": k, "sch": si + 1, "max": max, "ts": ts, "src": src,
+            let ncalls: usize = o.runs.iter().map(|r| r.calls.len()).sum();
+            *stats.entry("value.invocations-recorded".to_string()).or_default() += ncalls as u64;
+            json!({"ev": "value", "id": k, "sch": si + 1, "max": max, "ts": ts, "src": src, "rec": true,
                    "ok": o.ok, "out": o.out, "ast": o.ast, "runs": o.runs, "uses": o.uses})
         } else {
             let o = observe_filter(&w, si + 1, max, &src, &by_scheme[si], &uses);
